@@ -735,6 +735,90 @@ def fdesc(fspec):
     return list(fspec)
 
 
+LAYOUT_RULE = "LAYOUT: LayoutItem | LAYOUT LayoutItem | EMPTY;\nLayoutItem: WS;\n"
+
+
+def _layout_probe_worker(job):
+    """the same grammar with ws-based layout and with an equivalent LAYOUT rule: the filter must be
+    consulted for exactly the same decisions (layout is parsed by an internal parser that the
+    filter has nothing to do with)"""
+    from parglare import GLRParser, Grammar, Parser
+    from lib import impl
+    spec = job["spec"]
+    out = {"name": spec["name"], "rows": []}
+    text = spec_text(spec, "dyn")
+    head, tail = text.split("terminals\n", 1)
+    ltext = head + LAYOUT_RULE + "terminals\n" + tail + "WS: /\\s+/;\n"
+    out["gtext"], out["ltext"] = text, ltext
+
+    def sig(rec):
+        res = []
+        for c in rec:
+            if c["k"] == "init":
+                res.append(["init"])
+            else:
+                res.append([c["k"], getattr(c.get("prod"), "prod_id", None), bool(c["v"])])
+        return res
+    try:
+        for cls, cname in ((Parser, "lr"), (GLRParser, "glr")):
+            for fspec in (("acc",), ("rand", job["seed"], 0.75)):
+                with impl.time_limit(20), impl.quiet():
+                    pa = _build(cls, Grammar.from_string(text), fspec)
+                    pb = _build(cls, Grammar.from_string(ltext), fspec)
+                for w in job["inputs"]:
+                    obs = []
+                    for p in (pa, pb):
+                        del p._c18_rec[:]
+                        try:
+                            with impl.time_limit(10):
+                                r = p.parse(w)
+                            kind = "ok:%s" % (len(r) if cname == "glr" else "tree")
+                        except BaseException as e:  # noqa
+                            kind = impl.exc_kind(e)
+                        obs.append([kind, sig(p._c18_rec)])
+                        del p._c18_rec[:]
+                    out["rows"].append([cname, list(fspec[:1]), w, obs[0], obs[1]])
+    except BaseException as e:  # noqa
+        out["err"] = impl.exc_kind(e) + ": " + str(e)[:200]
+    return out
+
+
+def layout_probe(ctx, st, jobs):
+    pj = []
+    for j in jobs:
+        spec = j["spec"]
+        if spec.get("raw") or len(pj) >= (8 if ctx.quick() else 60):
+            continue
+        ins = []
+        for _ in range(6):
+            toks = gen_expr(ctx.rng, spec, ctx.rng.randint(1, 4))
+            ins.append(" ".join(toks))
+            ins.append("".join(t + ctx.rng.choice(["", " ", "\n "]) for t in toks))
+        pj.append({"spec": spec, "inputs": ins, "seed": ctx.rng.randrange(1 << 30)})
+    with mp.Pool(common.NPROC) as pool:
+        outs = pool.map(_layout_probe_worker, pj, chunksize=1)
+    st["layout_probe_grammars"] = len(outs)
+    st["layout_probe_parses"] = 0
+    for o in outs:
+        if o.get("err"):
+            if "Timeout" in o["err"]:
+                continue
+            ctx.violation("LAYOUT-rule variant of a filter grammar could not be run: %s" % o["err"],
+                          {"grammar": o.get("ltext")}, no_input=True, key="layout-probe-err")
+            continue
+        for cname, fspec, w, a, b in o["rows"]:
+            st["layout_probe_parses"] += 1
+            if "Timeout" in (a[0], b[0]):
+                continue
+            if a != b:
+                ctx.violation("%s: with a LAYOUT rule the filter is consulted differently than with the equivalent "
+                              "whitespace skipping (%d vs %d calls, outcome %s vs %s)"
+                              % (cname, len(a[1]), len(b[1]), a[0], b[0]),
+                              {"grammar": o["ltext"], "ws_grammar": o["gtext"], "input": w, "filter": fspec,
+                               "calls_ws": a[1][:12], "calls_layout": b[1][:12]}, key="layout-filter-" + cname)
+                break
+
+
 def run(ctx):
     jobs = gen_jobs(ctx)
     with mp.Pool(common.NPROC) as pool:
@@ -749,6 +833,7 @@ def run(ctx):
           "second_parse_same": 0, "filters": {}, "kf_instances": 0, "glr_rejpl_checked": 0,
           "glr_rejpl_pruned_nontrivially": 0, "glr_merged_head_shift_calls": 0,
           "glr_revisit_reduce_calls": 0, "lr_shift_calls_with_stale_context_token": 0}
+    layout_probe(ctx, st, jobs)
     mcases, meta = [], []
     wsl = [ord(c) for c in WS]
     distinct = set()
